@@ -336,9 +336,11 @@ Qed.
 
 Theorem docstring_embeds_full_snippet ls : dedent_lines (indent_lines ls) = ls.
 Proof.
-  destruct ls as [|l t]; [reflexivity|]. unfold indent_lines, dedent_lines. rewrite map_cons. f_equal.
-  - unfold dedent_line. now rewrite strip_prefix_app.
-  - rewrite map_map. induction t as [|x t IH]; [reflexivity|]. cbn [map]. now rewrite dedent_indent_line, IH.
+  destruct ls as [|l t]; [reflexivity|]. unfold indent_lines, dedent_lines. rewrite map_cons.
+  assert (H1 : dedent_line (ind12 ++ l)%string = l) by (unfold dedent_line; now rewrite strip_prefix_app).
+  assert (H2 : map dedent_line (map (fun x => if is_empty x then x else (ind12 ++ x)%string) t) = t).
+  { rewrite map_map. induction t as [|x t IH]; [reflexivity|]. cbn [map]. now rewrite dedent_indent_line, IH. }
+  now rewrite H1, H2.
 Qed.
 
 (* ================================================================ D. generate_request_object *)
@@ -380,7 +382,7 @@ Lemma fold_step_some k sc prefix fs : forall l0 l,
   fold_left (step k sc prefix) fs (Some l0) = Some l ->
   incl l0 l /\ forall f, In f fs -> exists c, contrib k sc prefix f = Some c /\ incl c l.
 Proof.
-  induction fs as [|f fs IH]; intros l0 l H; simpl in H.
+  induction fs as [|f fs IH]; intros l0 l H; cbn [fold_left] in H.
   - inversion H. subst. split; [apply incl_refl | intros f []].
   - rewrite step_contrib in H. destruct (contrib k sc prefix f) as [c|] eqn:C; simpl in H.
     + destruct (IH _ _ H) as [I1 I2]. split.
@@ -394,7 +396,7 @@ Qed.
 Lemma fold_step_total k sc prefix fs : forall l0,
   (forall f, In f fs -> contrib k sc prefix f <> None) -> fold_left (step k sc prefix) fs (Some l0) <> None.
 Proof.
-  induction fs as [|f fs IH]; intros l0 H; simpl; [discriminate|].
+  induction fs as [|f fs IH]; intros l0 H; cbn [fold_left]; [discriminate|].
   rewrite step_contrib. destruct (contrib k sc prefix f) as [c|] eqn:C.
   - simpl. apply IH. intros f' Hf'. apply H. now right.
   - exfalso. apply (H f (or_introl eq_refl)). assumption.
@@ -581,8 +583,8 @@ Definition ex_schema : schema :=
 Definition ex_rank (m : string) : nat := if String.eqb m "Req" then 1 else 0.
 Example ex_request :
   gro 3 ex_schema "Req" "" =
-  Some [("by_range.low", VInt 334); ("name", VStr "name_value"); ("mode", VList [VEnum "MODE_FAST"]);
-        ("spec.label", VStr "label_value"); ("spec.weights", VList [VInt 763; VInt 764])].
+  Some [("by_range.low", VInt 338); ("name", VStr "name_value"); ("mode", VList [VEnum "MODE_FAST"]);
+        ("spec.label", VStr "label_value"); ("spec.weights", VList [VInt 764; VInt 765])].
 Proof. vm_compute. reflexivity. Qed.
 Example ex_well_ranked : well_ranked ex_schema ex_rank.
 Proof.
